@@ -8,7 +8,7 @@ Driver for property C07: runs the client authenticator model on one scenario per
 
   run <unix 0|1> <user hex> <dir> <rnd hex> <nfiles> (<ctx hex> <content hex | !>)* <nchunks> <chunk hex>*
         dir = none | <st_mode decimal>:<owned 0|1>        `!` = open() raises
-     -> <events> | auth=<0|1> disc=<0|1> buffer=<hex> binary=<hex> mech=<hex|none> left=<n> guid=<hex|none>
+     -> <events> | auth=<0|1> disc=<0|1> buffer=<hex> binary=<hex> guid=<hex|none>
         events: N | R:<hex> | S:<hex> | C | A      (the text after `ERROR ` of a cookie failure is the
         name of the failure kind)
 
@@ -91,9 +91,7 @@ def optHex : Option Bytes → String
 
 def showProto (p : Proto) : String :=
   " ".intercalate (p.trace.map evStr) ++ " | auth=" ++ b01 p.authenticated ++ " disc=" ++ b01 p.disconnecting
-    ++ " buffer=" ++ hx p.buffer ++ " binary=" ++ hx p.binary ++ " mech=" ++ optHex p.auth.authMech
-    ++ " left=" ++ toString p.auth.authOrder.length
-    ++ " guid=" ++ optHex p.auth.guid
+    ++ " buffer=" ++ hx p.buffer ++ " binary=" ++ hx p.binary ++ " guid=" ++ optHex p.auth.guid
 
 def stStr : SpecServer.St → String
   | .waitingForAuth => "WaitingForAuth" | .waitingForData _ => "WaitingForData"
